@@ -76,6 +76,44 @@ def string_table(ctx, fn_name, oracle, what, require_lowercase=True, value=None,
     return t
 
 
+def string_table_eval(ctx, fn_name, oracle, what, cases=True, non_words=("frobnicate", "")):
+    """the same table decided by evaluation: fn(text) for every documented spelling (lower / UPPER / Capitalised) must
+    yield the documented variant (inside Some / Ok), and a non-word must yield None / Err"""
+    import interp
+    hir = ctx.anchor_hir(fn_name)
+    ps = ctx.prog.fns[fn_name]["params"]
+    n = 0
+    for variant, spellings in oracle.items():
+        for sp in spellings:
+            forms = [sp] + ([sp.upper(), sp.capitalize()] if cases and sp.isalpha() else [])
+            for text in dict.fromkeys(forms):
+                try:
+                    got = interp.Interp(prog=ctx.prog).run(hir, {ps[0]["id"]: text})
+                except interp.Undecided as e:
+                    ctx.obligation(False)
+                    ctx.violation("%s/unreadable" % what, ctx.where(fn_name), "cannot evaluate %s(%r): %s" % (short(fn_name), text, e))
+                    return
+                n += 1
+                inner = got.args[0] if isinstance(got, interp.V) and got.name in ("Option::Some", "Result::Ok") and got.args else None
+                name = inner.name.split("::")[-1] if isinstance(inner, interp.V) else None
+                ok = name == variant
+                ctx.obligation(ok)
+                if not ok:
+                    key = "%s/%s/%s" % (what, "missing" if name is None else "wrong", sp)
+                    ctx.violation(key, ctx.where(fn_name), "documented spelling `%s` of %s: %s(%r) gives %s" % (sp, variant, short(fn_name), text, got))
+    for text in non_words:
+        try:
+            got = interp.Interp(prog=ctx.prog).run(hir, {ps[0]["id"]: text})
+        except interp.Undecided:
+            continue
+        n += 1
+        ok = isinstance(got, interp.V) and got.name in ("Option::None", "Result::Err")
+        ctx.obligation(ok)
+        if not ok:
+            ctx.violation("%s/non-word" % what, ctx.where(fn_name), "%s(%r) gives %s: a word that is no %s must not be taken for one" % (short(fn_name), text, got, what))
+    ctx.covered("spellings of %s evaluated (each in three letter cases)" % short(fn_name), n, distinct_keys=[sp for v in oracle.values() for sp in v], exhaustive=True)
+
+
 def variant_set(ctx, fn_name):
     """the set of enum variants matched by a `matches!(self, A | B | ...)` style predicate"""
     hir = ctx.anchor_hir(fn_name)
